@@ -369,7 +369,12 @@ func Run(c *vk.Ctx) {
 		var gc GenCase
 		c.LoadReplay(&gc)
 		if gc.Generic {
-			f := runGeneric(gc)
+			f := ""
+			if gc.Method == "Wide" || gc.Method == "Sum" {
+				f = runGenericWide(gc)
+			} else {
+				f = runGeneric(gc)
+			}
 			fmt.Printf("replay generic receiver %+v\nresult: %s\n", gc, f)
 			if f != "" {
 				c.Violate("replay", f, gc)
